@@ -88,13 +88,6 @@ def main():
                 hints += [d for d in r["disagreements"][:20]]
 
     violations = list(tie.get("violations", [])) if tie else []
-
-    # 4. search
-    searched = None
-    if broken or violations:
-        searched = mod.search(ctx, hints)
-        violations += searched.get("violations", [])
-
     known = lib.known_findings(pid)
 
     def matches_known(v):
@@ -102,6 +95,12 @@ def main():
             if k["signature"] == v.get("signature"):
                 return k
         return None
+
+    # 4. search (only when something is red that is not a listed finding)
+    searched = None
+    if broken or any(not matches_known(v) for v in violations):
+        searched = mod.search(ctx, hints)
+        violations += searched.get("violations", [])
 
     new_viol = [v for v in violations if not matches_known(v)]
     listed = {}
